@@ -26,9 +26,10 @@ func TypeTerm(t *geval.SymType) smt.T {
 
 // Ctx is the per-instance verification context shared by the spec functions.
 type Ctx struct {
-	In    *Instance
-	E     *vc.Engine
-	types map[string]*geval.SymType // by term text
+	In     *Instance
+	E      *vc.Engine
+	types  map[string]*geval.SymType // by term text
+	hashAx map[string]bool
 }
 
 func (c *Ctx) typeVal(t *geval.SymType) vc.Val {
@@ -73,6 +74,12 @@ func (c *Ctx) genBindings(args map[string]geval.Value) map[string]vc.Val {
 
 // oClauses builds a contract from the o-* attributes of a generator function's contract.
 func (in *Instance) oClauses(key string, gen *contract.Func, params, results []string, decisions []string, args map[string]geval.Value, forCaller bool) (*contract.Func, error) {
+	return in.oClausesP(key, gen, params, results, decisions, args, forCaller, "o-")
+}
+
+// oClausesP: prefix "o-" reads the ordinary clauses, "o-rel-" the relational
+// ones (for the product program; @1/@2 name the two copies).
+func (in *Instance) oClausesP(key string, gen *contract.Func, params, results []string, decisions []string, args map[string]geval.Value, forCaller bool, pre string) (*contract.Func, error) {
 	c := &contract.Func{Key: key, Params: params, Results: results, LoopInv: map[int][]contract.Clause{}, Attrs: map[string][]string{}, File: gen.File, Line: gen.Line}
 	mk := func(text string) (contract.Clause, error) {
 		name := ""
@@ -83,21 +90,24 @@ func (in *Instance) oClauses(key string, gen *contract.Func, params, results []s
 				text = strings.TrimSpace(text[j+1:])
 			}
 		}
+		if pre == "o-rel-" {
+			text = relText(text)
+		}
 		e, err := spec.Parse(text)
 		if err != nil {
 			return contract.Clause{}, fmt.Errorf("%s: o-clause of %s: %v", gen.File, gen.Key, err)
 		}
 		return contract.Clause{Text: text, Expr: e, File: gen.File, Line: gen.Line, Name: name}, nil
 	}
-	for _, t := range in.pickGuarded(gen.Attrs["o-requires"], args, decisions) {
+	for _, t := range in.pickGuarded(gen.Attrs[pre+"requires"], args, decisions) {
 		cl, err := mk(t)
 		if err != nil {
 			return nil, err
 		}
 		c.Requires = append(c.Requires, cl)
 	}
-	ens := in.pickGuarded(gen.Attrs["o-ensures"], args, decisions)
-	if forCaller {
+	ens := in.pickGuarded(gen.Attrs[pre+"ensures"], args, decisions)
+	if forCaller && pre == "o-" {
 		// facts about the closure a helper returns: proved at the closure's own
 		// returns (o-closure-ensures), available to callers only
 		ens = append(ens, in.pickGuarded(gen.Attrs["o-caller-ensures"], args, decisions)...)
@@ -109,7 +119,7 @@ func (in *Instance) oClauses(key string, gen *contract.Func, params, results []s
 		}
 		c.Ensures = append(c.Ensures, cl)
 	}
-	for _, t := range in.pickGuarded(gen.Attrs["o-loop"], args, decisions) {
+	for _, t := range in.pickGuarded(gen.Attrs[pre+"loop"], args, decisions) {
 		// "<k>: invariant P"
 		j := strings.Index(t, ":")
 		if j < 0 {
@@ -277,6 +287,8 @@ func (in *Instance) Verify() (*vc.Engine, error) {
 	}
 	sort.Strings(hn)
 	var targets []string
+	relGen, relArgs := in.Con, in.GenArgs
+	var relSigPs, relSigRs []string
 	for _, n := range hn {
 		h := in.Helpers[n]
 		key := pkgName + "." + n
@@ -316,6 +328,7 @@ func (in *Instance) Verify() (*vc.Engine, error) {
 				}
 			}
 			targets = append(targets, key)
+			relGen, relArgs, relSigPs, relSigRs = fam, args, sigPs, rs
 		}
 		c, err := in.oClauses(key, fam, ps, rs, in.Path.Decisions, args, fn.Decl.Body == nil)
 		if err != nil {
@@ -382,6 +395,75 @@ func (in *Instance) Verify() (*vc.Engine, error) {
 		cs.Funcs[key] = c
 		e.ExtraBound[key] = map[string]vc.Val{}
 		targets = append(targets, key)
+	}
+	// the product program (relational clauses)
+	if in.RelFunc != "" {
+		key := pkgName + "." + in.RelFunc
+		fn := e.Funcs[key]
+		if fn == nil {
+			return nil, fmt.Errorf("product function %s is not declared", in.RelFunc)
+		}
+		var ps, rs []string
+		for _, fl := range fn.Decl.Type.Params.List {
+			for _, nm := range fl.Names {
+				ps = append(ps, nm.Name)
+			}
+		}
+		if fn.Decl.Type.Results != nil {
+			for _, fl := range fn.Decl.Type.Results.List {
+				for _, nm := range fl.Names {
+					rs = append(rs, nm.Name)
+				}
+			}
+		}
+		c, err := in.oClausesP(key, relGen, ps, rs, in.Path.Decisions, relArgs, false, "o-rel-")
+		if err != nil {
+			return nil, err
+		}
+		// names of the original function's parameters / results, as the clauses use them
+		orig := e.Funcs[pkgName+"."+in.RelOf]
+		for _, suf := range []string{SufA, SufB} {
+			if orig != nil {
+				i := 0
+				for _, fl := range orig.Decl.Type.Params.List {
+					for _, nm := range fl.Names {
+						if i < len(relSigPs) && relSigPs[i] != nm.Name {
+							cs.Ghost[pkgName+"."+relSigPs[i]+suf] = &spec.Ident{Name: nm.Name + suf}
+						}
+						i++
+					}
+				}
+			}
+			for _, op := range in.Operands {
+				if op.Class == "Star" || op.Class == "Amp" {
+					x := spec.MustParse(op.GoName + suf + " != nil")
+					c.Requires = append(c.Requires, contract.Clause{Text: op.GoName + suf + " != nil", Expr: x, File: in.Con.File, Line: in.Con.Line, Name: "safe-" + op.Name})
+				}
+				cs.Ghost[pkgName+"."+op.Name+suf] = spec.MustParse(op.Spec + suf)
+			}
+			if in.Wrapper != "" && in.RetType != "" {
+				cs.Ghost[pkgName+".r"+suf] = &spec.Ident{Name: Mark + "r" + suf}
+			}
+			if in.Wrapper == "" {
+				// results: o-sig names them; the product names them after the emitted text (or Ħres<i>)
+				half := len(rs) / 2
+				off := 0
+				if suf == SufB {
+					off = half
+				}
+				for i, sn := range relSigRs {
+					if i < half && rs[off+i] != sn+suf {
+						cs.Ghost[pkgName+"."+sn+suf] = &spec.Ident{Name: rs[off+i]}
+					}
+				}
+			}
+		}
+		cs.Funcs[key] = c
+		e.ExtraBound[key] = map[string]vc.Val{}
+		targets = append(targets, key)
+		same := &contract.Func{Key: pkgName + "." + Mark + "same", Params: []string{"b"}, LoopInv: map[int][]contract.Clause{}, Attrs: map[string][]string{"pure": {"true"}}, File: in.Con.File, Line: in.Con.Line}
+		same.Requires = []contract.Clause{{Text: "b", Expr: spec.MustParse("b"), File: in.Con.File, Line: in.Con.Line, Name: "lockstep"}}
+		cs.Funcs[same.Key] = same
 	}
 	// closures returned by emitted functions: o-closure names the literal's
 	// results, o-closure-ensures are checked at every return inside it
@@ -567,7 +649,57 @@ func (in *Instance) Verify() (*vc.Engine, error) {
 			return e, err
 		}
 	}
+	// o-lemma: order <type parameter>: C03's claims about the specification
+	// function itself, for the type shape of this path: values in {-1,0,1},
+	// antisymmetric, transitive, zero exactly on EqTop. Components are covered by
+	// the induction hypothesis (the axioms of CmpSpec / userCompare).
+	for _, lm := range in.pickGuarded(in.Con.Attrs["o-lemma"], in.GenArgs, in.Path.Decisions) {
+		ws := strings.Fields(lm)
+		if len(ws) != 2 || ws[0] != "order" {
+			return e, fmt.Errorf("%s: o-lemma: want 'order <type parameter>'", in.Con.File)
+		}
+		t, ok := in.GenArgs[ws[1]].(*geval.SymType)
+		if !ok {
+			return e, fmt.Errorf("%s: o-lemma: %s is not a type parameter", in.Con.File, ws[1])
+		}
+		if err := ctx.orderLemmas(pkgName+"."+Mark+"spec", t); err != nil {
+			return e, err
+		}
+	}
 	return e, nil
+}
+
+func (c *Ctx) orderLemmas(fn string, t *geval.SymType) error {
+	e := c.E
+	st := e.LemmaState(fn)
+	env := &vc.SpecEnv{E: e, St: st, Old: st, Bound: map[string]vc.Val{}}
+	srt := c.SortOfSym(t)
+	x, y, z := e.Fresh("lx", srt), e.Fresh("ly", srt), e.Fresh("lz", srt)
+	cmp := func(a, b smt.T) (smt.T, error) { return c.CmpTop(env, t, a, b, 0) }
+	cxy, err := cmp(x, y)
+	if err != nil {
+		return err
+	}
+	cyx, _ := cmp(y, x)
+	cyz, _ := cmp(y, z)
+	cxz, _ := cmp(x, z)
+	eq, err := c.EqTop(env, t, x, y, 0)
+	if err != nil {
+		return err
+	}
+	zero, one := smt.IntLit(0), smt.IntLit(1)
+	// the axioms the lemmas rest on must be satisfiable together with a pair of unequal values
+	pst := st.Clone()
+	pst.Assume(smt.Neq(cxy, zero))
+	e.Probe(pst, "lemma-axioms")
+	e.ObligeLemma(st, fn, "result-is-minus-one-zero-or-one", smt.And(smt.Le(smt.Neg(one), cxy), smt.Le(cxy, one)))
+	e.ObligeLemma(st, fn, "antisymmetric", smt.Eq(cxy, smt.Neg(cyx)))
+	e.ObligeLemma(st, fn, "transitive", smt.Implies(smt.And(smt.Le(cxy, zero), smt.Le(cyz, zero)), smt.Le(cxz, zero)))
+	e.ObligeLemma(st, fn, "transitive-strict", smt.And(
+		smt.Implies(smt.And(smt.Le(cxy, zero), smt.Lt(cyz, zero)), smt.Lt(cxz, zero)),
+		smt.Implies(smt.And(smt.Lt(cxy, zero), smt.Le(cyz, zero)), smt.Lt(cxz, zero))))
+	e.ObligeLemma(st, fn, "zero-iff-Equal", smt.Eq(smt.Eq(cxy, zero), eq))
+	return nil
 }
 
 // CheckHeader: the emitted function's signature is the one its callers assume.
